@@ -66,9 +66,27 @@ func init() {
 func (x *Exec) bstrOf(st *State, s string) string {
 	c := x.c
 	bs := c.sortOf(types.Typ[types.Uint8])
-	c.decl("uf:bstr", fmt.Sprintf("(declare-fun bstr ((Array Loc %s) Slice) Str)", bs))
-	t := sx("bstr", x.get(st, "H:"+bs), s)
-	c.assume(eq(sx("s_len", t), sx("sl_len", s)))
+	c.decl("uf:bstr", fmt.Sprintf("(declare-fun bstr ((Array Loc %[1]s) Slice) Str)\n(assert (forall ((h (Array Loc %[1]s)) (s Slice)) (! (= (s_len (bstr h s)) (sl_len s)) :pattern ((bstr h s)))))", bs))
+	h := x.get(st, "H:"+bs)
+	t := sx("bstr", h, s)
+	// frame facts along the definition chain of the heap: a write to another object leaves the content of s unchanged
+	if !c.mentionsBound(s) {
+		key := h + "|" + s
+		if c.bstrDone == nil {
+			c.bstrDone = map[string]bool{}
+		}
+		cur := h
+		for i := 0; i < 64 && !c.bstrDone[key]; i++ {
+			c.bstrDone[key] = true
+			parent, objRef := heapStep(cur)
+			if parent == "" {
+				break
+			}
+			c.assume(implies(not(eq(objRef, sx("ref", sx("sl_arr", s)))), eq(sx("bstr", cur, s), sx("bstr", parent, s))))
+			cur = parent
+			key = cur + "|" + s
+		}
+	}
 	return t
 }
 
@@ -110,12 +128,55 @@ func init() {
 
 func (x *Exec) scat(a, b string) string {
 	c := x.c
-	c.decl("uf:s_cat", fmt.Sprintf("(declare-fun s_cat (Str Str) Str)"))
-	t := sx("s_cat", a, b)
+	plus := "bvadd"
+	zero := c.idx(0)
 	if c.Int {
-		c.assume(eq(sx("s_len", t), sx("+", sx("s_len", a), sx("s_len", b))))
-	} else {
-		c.assume(eq(sx("s_len", t), sx("bvadd", sx("s_len", a), sx("s_len", b))))
+		plus = "+"
 	}
+	c.decl("uf:s_cat", fmt.Sprintf("(declare-fun s_cat (Str Str) Str)\n(assert (forall ((a Str) (b Str)) (! (and (= (s_len (s_cat a b)) (%s (s_len a) (s_len b))) (=> (= (s_len b) %s) (= (s_cat a b) a)) (=> (= (s_len a) %s) (= (s_cat a b) b))) :pattern ((s_cat a b)))))", plus, zero, zero))
+	t := sx("s_cat", a, b)
 	return t
+}
+
+// applyGhost executes the contract's ghost map assignments on st; keys and values are evaluated in sc
+func (fr *Frame) applyGhost(st *State, ct *FnContract, sc *Scope) {
+	x := fr.x
+	for _, ga := range ct.Ghost {
+		gm, ok := x.w.GhostMaps[ga.Map]
+		if !ok {
+			sc.fail("ghost map %s is not declared", ga.Map)
+		}
+		comp := sc.ghostComp(gm)
+		k := sc.coerceTo(sc.eval(ga.Key), gm.Key)
+		v := sc.coerceTo(sc.eval(ga.Val), gm.Val)
+		x.set(st, comp, sx("store", x.get(st, comp), k.T, v.T))
+	}
+}
+
+// heapStep: if heap array h is defined as its parent with one object written (a store, or a bulk write /
+// object havoc recorded in heapParents), return the parent and the ref of the written object.
+var heapParents map[string][2]string // name -> {parent, objRef}
+
+func heapStep(h string) (parent, objRef string) {
+	if p, ok := heapParents[h]; ok {
+		return p[0], p[1]
+	}
+	d, ok := activeDefs[h]
+	if !ok || !strings.HasPrefix(d, "(store ") {
+		return "", ""
+	}
+	parts := splitTop(d[len("(store ") : len(d)-1])
+	if len(parts) != 3 {
+		return "", ""
+	}
+	return parts[0], sx("ref", parts[1])
+}
+
+func (c *Ctx) mentionsBound(t string) bool {
+	for b := range c.boundVars {
+		if strings.Contains(t, b) {
+			return true
+		}
+	}
+	return false
 }
